@@ -1,5 +1,11 @@
 #!/bin/bash
 # every registered thorough command once on the unchanged tree (machinery self-test; run under `vp run`)
+# run with `vp run --with-repo`: works against the SNAPSHOT of /repo, so that seeding experiments in /repo
+# itself cannot leak into this run (they did once: three bogus alarms)
+R=${VP_RUN_REPO:?run under vp run --with-repo}
+export VERIF_REPO=$R CARGO_NET_OFFLINE=true
+sed -i "s#path = \"/repo\"#path = \"$R\"#" harness/Cargo.toml
+[ -f $R/Cargo.lock ] || cp /repo/Cargo.lock $R/Cargo.lock
 ./setup.sh > setup.log 2>&1 || { echo setup failed; tail setup.log; exit 2; }
 for p in C13 C16 C12 C08 C07 C04 C03 C05 C06 C17 C11 C14 C09 C10 C01 C02 C18 C15; do
   s=$(date +%s)
